@@ -1,5 +1,6 @@
 """C12 Metadata lookup tables behave as exact maps; the insertable sorted set (DESIGN.md 5.3, 6 C12;
 spec/Tables.tla, MC_Tables.tla, MC_TablesSet.tla, T_Tables.tla; harness/src/probe_tab.cpp)."""
+import json
 import os
 import random
 
@@ -40,7 +41,8 @@ def set_histories(ctx):
     hists = []
     for cfg, least in (("MC_TablesSet_cover.cfg", 1000),
                        ("MC_TablesSet_all.cfg" if ctx.quick else "MC_TablesSet_all_thorough.cfg", 1000)):
-        r = tlc.check("MC_TablesSet.tla", cfg, workers=8, timeout=1500)
+        # one worker for the cover: which shortest history TLC keeps per edge then does not depend on scheduling
+        r = tlc.check("MC_TablesSet.tla", cfg, workers=1 if "cover" in cfg else 8, timeout=1500)
         if not r["ok"]:
             raise core.Infra("export run %s violates %s" % (cfg, r["violated"]))
         hs = tlc.leaves(r["out"])
@@ -51,11 +53,11 @@ def set_histories(ctx):
         hists += hs
     seen, out = set(), []
     for h in hists:
-        k = repr(h)
+        k = json.dumps(h, sort_keys=True)
         if k not in seen:
             seen.add(k)
-            out.append(h)
-    return out
+            out.append((k, h))
+    return [h for _, h in sorted(out, key=lambda x: x[0])]
 
 
 def random_histories(rng, n):
